@@ -57,6 +57,9 @@ type Program struct {
 	YieldUs   int
 	MetaKeys  int
 	PayloadSz int
+	// EditAfterPublish: after a Publish call returned, the publisher edits the metadata of the message objects it
+	// passed (it may, the call is over); deliveries must still equal the message as it was when Publish was called.
+	EditAfterPublish bool
 }
 
 // Delivery is one message received by a subscription.
@@ -88,6 +91,8 @@ type PubRec struct {
 	Err      string
 	Panic    string
 	CallNo   int
+	// EditedAfter: the harness itself edited Orig after the Publish call returned (OrigSnap is the value as published)
+	EditedAfter bool
 }
 
 // SubRec is one subscription.
@@ -147,7 +152,13 @@ type Run struct {
 	decorated       []message.Subscriber
 }
 
-func (r *Run) topicName(t int) string { return fmt.Sprintf("%s/t%d", r.ID, t) }
+func (r *Run) topicName(t int) string {
+	// the salt varies the names between cases (a lock-striping scheme keyed by a hash of the name must not matter)
+	return fmt.Sprintf("%s/t%d-%x", r.ID, t, vlib.HashStr(fmt.Sprintf("%s/%d", r.ID, t))&0xffff)
+}
+
+// TopicName is the name of topic t of this run.
+func (r *Run) TopicName(t int) string { return r.topicName(t) }
 
 // PubRecs returns value copies of the publish records.
 func (r *Run) PubRecs() []PubRec {
@@ -443,6 +454,17 @@ func (r *Run) publisher(pi int, ps PubSpec, rr *vlib.Rand) {
 			n++
 		}
 		r.doPublish(ps.Topic, recs, msgs)
+		if r.Prog.EditAfterPublish {
+			for _, m := range msgs {
+				m.Metadata.Set("edited-after-publish", "yes")
+				delete(m.Metadata, "k0")
+			}
+			r.mu.Lock()
+			for _, rec := range recs {
+				rec.EditedAfter = true
+			}
+			r.mu.Unlock()
+		}
 		call++
 		for y := rr.Intn(3); y > 0; y-- {
 			runtime.Gosched()
